@@ -526,7 +526,7 @@ class Check:
         return True
 
     def _save_replay(self, idx, key, detail, case):
-        d = os.path.join(VERIF, "out", "replays", self.pid)
+        d = os.path.join(os.environ.get("VERIF_OUT", os.path.join(VERIF, "out")), "replays", self.pid)
         os.makedirs(d, exist_ok=True)
         h = hashlib.sha1((key + json.dumps(case, sort_keys=True, default=str)).encode()).hexdigest()[:12]
         p = os.path.join(d, f"{h}.json")
